@@ -213,7 +213,7 @@ prop("C04", ["stack_gou_glue", "proto_glue", "plain_get_env", "plain_touch_env",
      ["plain_put_seq", "stackc_put_w1r1"],
      outside=["linearizability is decided as a forward simulation per operation (linearization point = the publishing / opening call), not by enumerating histories"],
      assumptions=COMMON_ASSUME + [RELY])
-prop("C05", ["c05_cleanup_temp_vanish", "proto_glue", "plain_get_env", "plain_touch_env", "raw_apply_update_evict_a_moveback_b", "raw_collect_a_temp", "raw_ops_sanity_twin"],
+prop("C05", ["c05_cleanup_temp_vanish", "proto_glue", "c07_apply_glue", "plain_get_env", "plain_touch_env", "raw_apply_update_evict_a_moveback_b", "raw_collect_a_temp", "raw_ops_sanity_twin"],
      ["plain_write_missing_dir_env"],
      outside=["adversarial deletion of young temp files (excluded by the property)"], assumptions=COMMON_ASSUME + [RELY])
 prop("C06", ["proto_glue", "plain_get_env", "plain_touch_env", "plain_ops_sanity_twin"],
